@@ -52,6 +52,11 @@ SetParentIndent(i) == /\ steps < Depth /\ steps' = steps + 1 /\ parent[1] = "pos
                       /\ parent' = <<"posting", i>>
                       /\ hist' = Append(hist, [op |-> "parent_indent", arg |-> i, expect |-> {}, sib |-> sib, by |-> by, parent |-> <<"posting", i>>])
                       /\ UNCHANGED <<sib, by>>
+\* a raw standalone comment with its own indentation is put at the front of the list: it is not a meta item,
+\* so it does not take part in "the indentation shared by the existing sibling items"
+InsertComment(r) == /\ steps < Depth /\ steps' = steps + 1
+                    /\ Rec("insert_comment", r, {}, sib, by)
+                    /\ UNCHANGED <<parent, sib, by>>
 ClearAll == /\ steps < Depth /\ steps' = steps + 1 /\ sib # <<>>
             /\ sib' = <<>> /\ Rec("clear", "", {}, <<>>, by)
             /\ UNCHANGED <<parent, by>>
@@ -61,7 +66,7 @@ SetComment(k, side) == /\ steps < Depth /\ steps' = steps + 1
                        /\ Rec("comment_" \o side, k, {IF k = 0 THEN parent[2] ELSE sib[k]}, sib, by)
                        /\ UNCHANGED <<parent, sib, by>>
 
-Next == AddByValue \/ (\E r \in RawIndents : AppendRaw(r)) \/ (\E i \in RawIndents : SetParentIndent(i)) \/ (\E b \in IndentBys : SetIndentBy(b)) \/ ClearAll
+Next == AddByValue \/ (\E r \in RawIndents : AppendRaw(r)) \/ (\E i \in RawIndents : SetParentIndent(i)) \/ (\E r \in RawIndents : InsertComment(r)) \/ (\E b \in IndentBys : SetIndentBy(b)) \/ ClearAll
         \/ (\E k \in 0..2 : \E side \in {"leading", "trailing"} : SetComment(k, side))
 
 \* a value-created item never invents an indentation when siblings exist
